@@ -79,6 +79,11 @@ def all_configs():
                             "clear_untrusted_proxy_headers": clear, "log_untrusted_proxy_headers": log,
                         },
                     })
+        # a link-local trusted proxy pinned to one interface: the same address on another link, or
+        # without a zone, is another host
+        for clear in (True, False):
+            out.append({"unix": False, "cfg": {"trusted_proxy": "fe80::2%eth0", "trusted_proxy_headers": list(kinds), "trusted_proxy_count": 1,
+                                               "clear_untrusted_proxy_headers": clear, "log_untrusted_proxy_headers": not clear}})
         for count in (1, 3):
             for clear in (True, False):
                 out.append({
@@ -207,6 +212,8 @@ def pick_peer(rng, conf):
     port = rng.choice((50000, 1, 65535, 40123))
     if conf["unix"]:
         return ["127.0.0.1", port], "unix"  # replaced by fix_addr: ('localhost', None)
+    if str(cfg.get("trusted_proxy")).startswith("fe80"):
+        return [rng.choice(["fe80::2%eth1", "fe80::2", "fe80::2%eth00", "fe80::2%25eth0", "fe80::2%", "fe80::2%ETH0", "fe80::20%eth0"]), port], "prefix"
     if cfg.get("trusted_proxy") is None:
         r = rng.random()
         if r < 0.3:
